@@ -88,6 +88,7 @@ func suiteHistory(args []string) {
 	userTypeShapes(r, rep)
 	embeddedShapes(rep)
 	transplants(r, rep)
+	userSchemas(r, rep, 30+*n)
 	rep.emit()
 }
 
